@@ -56,7 +56,10 @@
 (*        | "true"/"false" (value returned by exists)                      *)
 (*        | "assert" (ruamel's dump raised AssertionError, yaml_set.py:338)*)
 (*   eff: what a failing call left behind in the file it was writing:      *)
-(*        "none" | "empty" | "partial";  "-" for calls that did not fail   *)
+(*        "none" | "empty" | "partial" | "full" (everything was written,   *)
+(*        the call failed nevertheless - e.g. a failed flush that the      *)
+(*        buffered writer repeats on close);  "-" for calls that did not   *)
+(*        fail                                                             *)
 (*   exit events: op = "exit", role = the cause, res = "ok" (status 0) or  *)
 (*        "fail" (non-zero status or uncaught exception)                   *)
 (*                                                                         *)
@@ -96,7 +99,7 @@ FileRoles == {"target", "backup", "output", "tmp", "other"}
 IOOps == {"exists", "remove", "copy2", "tmpfile", "open_r", "open_rb", "open_w", "open_wb",
           "copyfileobj", "dump", "close"}
 Events == [op : IOOps, role : FileRoles, res : {"ok", "fail", "true", "false", "assert"},
-           eff : {"-", "none", "empty", "partial"}]
+           eff : {"-", "none", "empty", "partial", "full"}]
           \cup [op : {"exit"}, role : ExitCauses, res : {"ok", "fail"}, eff : {"-"}]
 
 Fs0(o) == [target |-> "ORIG",
@@ -181,8 +184,8 @@ AtLabel(l, s, e) ==
     [] l = "copy_bak" ->
          IF e.op = "copy2" /\ e.role = "backup"
          THEN IF Okay(e) THEN [Go(Put(s, "backup", s.fs.target), AfterBackup(s)) EXCEPT !.copied = TRUE]
-              ELSE IF e.res = "fail" /\ e.eff \in {"none", "empty", "partial"} /\ s.faults = 1
-              THEN Abort(Put(s, "backup", LeftBy(e.eff, s.fs.backup)), "io")
+              ELSE IF e.res = "fail" /\ e.eff \in {"none", "empty", "partial", "full"} /\ s.faults = 1
+              THEN Abort(Put(s, "backup", IF e.eff = "full" THEN s.fs.target ELSE LeftBy(e.eff, s.fs.backup)), "io")
               ELSE Reject(s)
          ELSE Reject(s)
     [] l = "open_tmp" -> Plain(s, e, "tmpfile", "tmp", Go(Push(s, "tmp"), "open_r2"))
@@ -196,8 +199,8 @@ AtLabel(l, s, e) ==
     [] l = "dump" ->
          IF e.op = "dump" /\ e.role = W(s)
          THEN IF Okay(e) THEN Go(Put(s, W(s), "NEW"), "close_w")
-              ELSE IF e.res = "fail" /\ e.eff \in {"none", "partial"} /\ s.faults = 1
-              THEN Abort(Put(s, W(s), LeftBy(e.eff, s.fs[W(s)])), "io")
+              ELSE IF e.res = "fail" /\ e.eff \in {"none", "partial", "full"} /\ s.faults = 1
+              THEN Abort(Put(s, W(s), IF e.eff = "full" THEN "NEW" ELSE LeftBy(e.eff, s.fs[W(s)])), "io")
               ELSE IF e.res = "assert" /\ e.eff \in {"none", "partial"} /\ s.faults = 1 /\ YamlSet(s)
               THEN [Go(Put(s, W(s), LeftBy(e.eff, s.fs[W(s)])), "r_close_w") EXCEPT !.faults = 0, !.cause = "assert"]
               ELSE Reject(s)
